@@ -927,9 +927,11 @@ class Vector():
 
 	def _unary_operation(self, op_func, op_name: str):
 		"""Helper function to handle unary operations on each element."""
+		result_values = tuple(op_func(x) for x in self)
+		# Infer dtype from result (e.g., -True is the int -1, abs(int) stays int)
 		return Vector(
-			tuple(op_func(x) for x in self),
-			dtype=self._dtype,
+			result_values,
+			dtype=infer_dtype(result_values),
 			name=self._name,
 			as_row=self._display_as_row
 		)
